@@ -408,6 +408,96 @@ def sched_pass(ctx, exe, janet, n, broken):
     return cov
 
 
+def gsched_pass(ctx, exe, n, broken):
+    """(D5) correspondence of the COMBINED machine (Fiber/GuardSched.lean runTG): the tree's root fiber is a task of the event
+    loop (ev/go, then re-scheduled / cancelled by the loop) while vm.c runs with the recursion guard lowered to `lim` levels
+    above the loop (harness/C05/guardmain.c; the loop dispatches at janet_vm.stackn = 0, so depths are absolute); every
+    event carries janet_vm.stackn; traces, final status and last value of the task must equal the model's (`gstree`).
+    Trees on which the model stops `unmodelled` (guard trip inside a suspended child chain, task signalling event /
+    interrupt to the loop) are not run.  (E5) statuses forward on the implementation trace."""
+    cov = {"gsched_trees": 0, "gsched_diffs": 0, "gsched_trips_impl": 0, "gsched_dispatches": 0, "gsched_skipped_unmodelled": 0, "gsched_limits": {}}
+    if exe is None:
+        return cov
+    try:
+        binp = ctx.build.harness("asan", "c05guard", [os.path.join(VERIF, "harness", "C05", "guardmain.c")])
+        pre = prelude.prelude_gsched(ctx.build.tree)
+    except (BuildError, prelude.PreludeError) as e:
+        broken.append("guard+task harness: %s" % str(e)[-300:])
+        ctx.broken.append(broken[-1])
+        return cov
+    trees = []
+    for i in range(n):
+        r = ctx.rng.fork("gstree%d" % i)
+        g = gen.Gen(r, size=r.range(3, 18), maxdepth=r.range(2, 5), profile="driver" if r.chance(1, 2) else "uniform")
+        t, fl = g.tree()
+        acts = []
+        for j in range(r.below(4)):
+            k = "c" if r.below(3) else "r"
+            acts.append((k, ["n", "i%d" % (900 + j), "kcx"][r.below(3)]))
+        lim = [2, 3, 3, 4, 4, 5, 6, 8][r.below(8)]
+        trees.append((t, fl, acts, lim))
+        cov["gsched_dispatches"] += len(acts)
+        cov["gsched_limits"][str(lim)] = cov["gsched_limits"].get(str(lim), 0) + 1
+    lines = [gen.model_line_gs(t, fl, acts, lim) for t, fl, acts, lim in trees]
+    model_out = ctx.model(lines, exe=exe)
+    skip = set(i for i in range(n) if split_line(model_out[i])[1] in ("unmodelled", "hang"))
+    cov["gsched_skipped_unmodelled"] = len(skip)
+    srcs = [gen.janet_tree_gs(i, *trees[i]) for i in range(n)]
+    nb = 8 if n > 64 else 1
+
+    def work(k):
+        ids = [i for i in range(k, n, nb) if i not in skip]
+        fd, path = tempfile.mkstemp(prefix="c05gs-", suffix=".janet", dir="/var/tmp")
+        with os.fdopen(fd, "w") as f:
+            # ONE sequential top-level form: the guard is a global of the harness, and a form suspended in ev/sleep would
+            # otherwise let janet_dobytes start the next one; leave explicitly (suspended tasks keep the loop alive)
+            f.write(pre + "\n" + "\n".join(srcs[i] for i in ids) + "\n(do (each t_ [" + " ".join("t%d" % i for i in ids) + "] (t_)) (flush) (os/exit 0))\n")
+        try:
+            rc, out, err = run_cmd([binp, "1024", path], timeout=600, env=ENV)
+        finally:
+            os.unlink(path)
+        res = {}
+        for l in out.decode(errors="replace").splitlines():
+            i, _, rest = l.partition(" ")
+            if i.isdigit():
+                res[int(i)] = rest
+        return ids, res, rc, err.decode(errors="replace")[-2000:]
+    impl = {}
+    with cf.ThreadPoolExecutor(8) as ex:
+        for ids, res, rc, err in ex.map(work, range(nb)):
+            impl.update(res)
+            if rc != 0 or len(res) != len(ids):
+                missing = [i for i in ids if i not in res]
+                ctx.violation("gsched-pass-crash", {"kind": "crash", "janet": srcs[missing[0]] if missing else "", "rc": rc, "stderr": err,
+                                                    "prelude": "harness/C05/prelude.py prelude_gsched", "harness": "harness/C05/guardmain.c"},
+                              what="guard+task pass: implementation crashed / sanitizer report on a fiber tree run as an event-loop task with a lowered recursion guard (rc=%r)" % rc)
+    first_diff = None
+    for i, (t, fl, acts, lim) in enumerate(trees):
+        if i not in impl:
+            continue
+        cov["gsched_trees"] += 1
+        if "C_stack_recursed_too_deeply" in impl[i]:
+            cov["gsched_trips_impl"] += 1
+        msg = guard_r1(impl[i])
+        if msg:
+            ctx.violation("protocol:status_forward_gsched", {"kind": "protocol", "rule": "status_forward", "janet": srcs[i], "impl_trace": impl[i], "limit": lim,
+                                                             "prelude": "harness/C05/prelude.py prelude_gsched", "harness": "harness/C05/guardmain.c"},
+                          what="a fiber's status moved backwards in an execution with guard trips and event-loop dispatches: " + msg)
+        if split_line(model_out[i])[1] != "done":
+            broken.append("guard+task pass: model driver rejected / got stuck on tree %d: %s" % (i, model_out[i][-200:]))
+            continue
+        if split_line(impl[i])[0] != split_line(model_out[i])[0]:
+            cov["gsched_diffs"] += 1
+            if first_diff is None:
+                first_diff = i
+    if first_diff is not None:
+        i = first_diff
+        broken.append("guard + event-loop correspondence (runTG / loopEnterG) model vs impl: %d of %d trees differ (first: limit %d)" % (cov["gsched_diffs"], cov["gsched_trees"], trees[i][3]))
+        ctx.broken.append(broken[-1])
+        cov["gsched_first_diff"] = {"janet": srcs[i], "model_line": lines[i], "impl": split_line(impl[i])[0], "model": split_line(model_out[i])[0]}
+    return cov
+
+
 def run(ctx, only=None):
     quick = ctx.tier == "quick"
     broken = []
@@ -546,6 +636,8 @@ def run(ctx, only=None):
     ctx.say("guard pass %r" % {k: v for k, v in gcov.items() if k != "guard_first_diff"})
     scov = sched_pass(ctx, exe, janet, (600 if quick else 6000) * (3 if broken else 1), broken) if pre is not None else {}
     ctx.say("task pass %r" % {k: v for k, v in scov.items() if k != "sched_first_diff"})
+    gscov = gsched_pass(ctx, exe, (400 if quick else 4000) * (3 if broken else 1), broken) if pre is not None else {}
+    ctx.say("guard+task pass %r" % {k: v for k, v in gscov.items() if k != "gsched_first_diff"})
     ncov = named_pass(ctx, exe, janet, broken) if pre is not None else {}
     ctx.say("&named pass %r" % ncov)
     # raw janet scenarios (regressions of past findings), run under ASan
@@ -579,6 +671,8 @@ def run(ctx, only=None):
             rep.update(gcov["guard_first_diff"])
         elif scov.get("sched_first_diff"):
             rep.update(scov["sched_first_diff"])
+        elif gscov.get("gsched_first_diff"):
+            rep.update(gscov["gsched_first_diff"])
         if diffs:
             i = diffs[0]
             t, fl = trees[i]
@@ -611,6 +705,7 @@ def run(ctx, only=None):
         "model_halt_kinds": halts, "correspondence_diffs": len(diffs), "crashes": len(crashes),
         "guard_pass": {k: v for k, v in gcov.items() if k != "guard_first_diff"},
         "task_pass": {k: v for k, v in scov.items() if k != "sched_first_diff"},
+        "guard_task_pass": {k: v for k, v in gscov.items() if k != "gsched_first_diff"},
         "named_pass": ncov,
         "oracle_violations": len(oracle_bad), "oracle_adjacency_hits_model_agrees": [(i, b[1][:200]) for i, b in unconfirmed[:10]], "oracle_checks": stats, "generator_op_mix": opmix, "generator_op_mix_driver_profile": opmix_d,
         "trees_uniform_profile": n, "trees_driver_profile": nd, "executed_label_fraction": exec_frac,
@@ -618,12 +713,11 @@ def run(ctx, only=None):
     ctx.say("halts %r diffs %d oracle_bad %d stats %r" % (halts, len(diffs), len(oracle_bad), stats))
     return ctx.finish("proof", cov, assumptions=[
         "theorems are about the Lean models (Fiber/Model.lean, Boot.lean, Guard.lean, Sched.lean, Named.lean); the models are tied to the C by the regenerated "
-        "constants / shape flags and by four trace correspondences (plain, lowered recursion guard with janet_vm.stackn, event-loop task, &named)",
+        "constants / shape flags and by five trace correspondences (plain, lowered recursion guard with janet_vm.stackn, event-loop task, both at once, &named)",
         "not modelled: breakpoints / single-stepping; a recursion-guard trip INSIDE a suspended child chain (`unmodelled`, 0 trees in the thorough tier); what the event "
         "loop does with a task's result (supervisor channel, stack trace) and tasks that signal event / interrupt to the loop (skipped, counted)",
         "whole-execution status monotonicity AND the cleanup (`exactly once`) theorems are proved for the guarded machine at any limit, for event-loop "
-        "schedules, and (session 4) for executions that interleave both (`runTG`); the combined machine's dispatch `loopEnterG` has no correspondence pass of "
-        "its own: it is `loopEnter` (task pass) below the limit and `unmodelled` at it",
+        "schedules, and (session 4) for executions that interleave both (`runTG`, tied by the guard+task correspondence pass)",
         "dynamic bindings: a fiber's env index never changes once set is a conjunct of the whole-execution step relation (`denv_never_reassigned`); oracle R6 "
         "still checks every dyn read against an independent table model",
         "cleanup `exactly once` is about exits of the body fiber; a body suspended for ever has not exited; `Priv` (gensym privacy) is a hypothesis"])
@@ -637,7 +731,12 @@ def replay(ctx, path):
     if src and r.get("kind") in ("hang", "crash", "protocol", "broken-obligation"):
         asan = ctx.try_variant("asan")
         cmd = [asan["janet"]]
-        if "run-tree-g" in src:         # guard pass: vm.c wrapper with the lowered guard + janet_vm.stackn readout
+        if "run-tree-gs" in src:        # guard + task pass: one sequential form under the event loop, lowered guard
+            pre = prelude.prelude_gsched(ctx.build.tree) + "\n"
+            cmd = [ctx.build.harness("asan", "c05guard", [os.path.join(VERIF, "harness", "C05", "guardmain.c")]), "1024"]
+            mm = re.match(r"\(defn (t\d+) ", src)
+            src += "\n(do (%s) (flush) (os/exit 0))" % (mm.group(1) if mm else "t0")
+        elif "run-tree-g" in src:       # guard pass: vm.c wrapper with the lowered guard + janet_vm.stackn readout
             pre = prelude.prelude_guard(ctx.build.tree) + "\n"
             cmd = [ctx.build.harness("asan", "c05guard", [os.path.join(VERIF, "harness", "C05", "guardmain.c")]), "1024"]
         elif "run-tree-s" in src:       # task pass
